@@ -28,7 +28,7 @@ LEVEL_TEXT = ('Every built-in reward and termination component, built through th
 LEVEL_NOTE = ('Trusted: refmodel.ref_reward/ref_terminating. Triples are restricted to the documented domain (agent inside '
               'the grid on a non-blocking cell, unique object for distance rewards, beacons of one colour, same grid shape).')
 SHARDS = {'quick': 4, 'thorough': 16}
-BUDGET_S = {'quick': 60, 'thorough': 600}
+BUDGET_S = {'quick': 300, 'thorough': 2400}
 RULE = ('case = (component or composite with parameters, state, action, next state). non-trivial = the component fires '
         '(returns something else than its neutral value / True); distinct by (component spec, deep encodings of both states, '
         'action). Categories count each component x {fires, silent} x {real, arbitrary} triple.')
